@@ -321,13 +321,8 @@ func (r *Resolver) Resolve(ctx context.Context, name string) (ResolveResult, err
 		}
 		return result, nil
 	}
-	if len(name) > 255 {
+	if !validName(name) {
 		return result, ErrInvalidName
-	}
-	for _, p := range strings.Split(name, ".") {
-		if len(p) > 63 {
-			return result, ErrInvalidName
-		}
 	}
 
 	if r.insecureUseGoResolver {
@@ -352,6 +347,11 @@ func (r *Resolver) Resolve(ctx context.Context, name string) (ResolveResult, err
 		svcbName = fmt.Sprintf("_%d._%s.%s", result.Port, scheme, name)
 	} else if scheme != "https" {
 		svcbName = fmt.Sprintf("_%s.%s", scheme, name)
+	}
+
+	// The scheme and port labels can push the name over the limits.
+	if !validName(svcbName) {
+		return result, ErrInvalidName
 	}
 
 	// First, resolve HTTPS Aliases.
@@ -425,6 +425,22 @@ func (r *Resolver) Resolve(ctx context.Context, name string) (ResolveResult, err
 		result.Address = append(result.Address, v.(net.IP))
 	}
 	return result, nil
+}
+
+// validName reports whether name fits in a DNS message: at most 255 octets on
+// the wire, i.e. 253 characters, in labels of at most 63 octets. RFC 1035
+// section 2.3.4.
+func validName(name string) bool {
+	name = strings.TrimSuffix(name, ".")
+	if len(name) > 253 {
+		return false
+	}
+	for _, p := range strings.Split(name, ".") {
+		if len(p) > 63 {
+			return false
+		}
+	}
+	return true
 }
 
 func (r *Resolver) resolveTarget(ctx context.Context, name string, res *ResolveResult) error {
